@@ -51,7 +51,8 @@ type Scenario struct {
 	Insts     []world.InstCfg `json:"insts"`
 	Tasks     [][]Op          `json:"tasks"`
 	Shared    []SharedVal     `json:"shared,omitempty"`
-	Vocabs    [][]string      `json:"vocabs,omitempty"`
+	Vocabs    [][]string      `json:"vocabs,omitempty"`     // in files: see VocabsHex
+	VocabsHex [][]string      `json:"vocabs_hex,omitempty"` // Vocabs as hex: vocabulary strings are arbitrary bytes, JSON strings are not
 	Sites     []string        `json:"sites"`
 	Policy    engine.Policy   `json:"policy"`
 	PoolSeam  bool            `json:"pool_seam,omitempty"`
@@ -61,6 +62,49 @@ type Scenario struct {
 	SimReg    bool            `json:"sim_registry,omitempty"` // CodecForType operations go through the simulator-owned registry
 	SchedSeed uint64          `json:"sched_seed"`
 	Note      string          `json:"note,omitempty"`
+}
+
+// MarshalJSON writes the vocabularies as hex (a JSON string cannot hold bytes
+// that are not UTF-8; it would silently replace them and the replay would
+// generate other values than the run did).
+func (sc Scenario) MarshalJSON() ([]byte, error) {
+	type plain Scenario
+	p := plain(sc)
+	p.VocabsHex = nil
+	for _, v := range sc.Vocabs {
+		hv := make([]string, len(v))
+		for i, s := range v {
+			hv[i] = hex.EncodeToString([]byte(s))
+		}
+		p.VocabsHex = append(p.VocabsHex, hv)
+	}
+	p.Vocabs = nil
+	return json.Marshal(p)
+}
+
+func (sc *Scenario) UnmarshalJSON(b []byte) error {
+	type plain Scenario
+	var p plain
+	if err := json.Unmarshal(b, &p); err != nil {
+		return err
+	}
+	if p.VocabsHex != nil {
+		p.Vocabs = nil
+		for _, hv := range p.VocabsHex {
+			v := make([]string, len(hv))
+			for i, s := range hv {
+				raw, err := hex.DecodeString(s)
+				if err != nil {
+					return err
+				}
+				v[i] = string(raw)
+			}
+			p.Vocabs = append(p.Vocabs, v)
+		}
+		p.VocabsHex = nil
+	}
+	*sc = Scenario(p)
+	return nil
 }
 
 // Violation describes one failed check.
